@@ -1,4 +1,5 @@
 import OmplModel.Model.ControlExtra
+import OmplModel.Model.ControlReconf
 import Mathlib.Analysis.SpecialFunctions.Trigonometric.Inverse
 import Mathlib.Analysis.SpecialFunctions.Complex.Arg
 import Mathlib.Analysis.SpecialFunctions.Sqrt
@@ -156,5 +157,63 @@ theorem trunc_witness :
   · exact_mod_cast durToSteps_round 6 _ _ hq
   · rw [trunc_witness_quot, Int.floor_eq_iff]
     constructor <;> norm_num
+
+/-! ## the samplers of `Model/ControlReconf.lean` at exact real arithmetic -/
+
+open OmplModel.ControlReconf in
+/-- `RealVectorControlUniformSampler::sample` from the bounds handed in, raw draws in `[0, 1)` -/
+theorem sampleReal_bounds {ρ : Type} (raw : ρ → ℝ × ρ) (hraw : ∀ g, 0 ≤ (raw g).1 ∧ (raw g).1 < 1) :
+    ∀ (lo hi : List ℝ) (g : ρ), hi.length = lo.length →
+      (∀ (i : Nat) (l h : ℝ), lo[i]? = some l → hi[i]? = some h → l ≤ h) →
+      (@sampleReal ℝ ρ numReal raw lo hi g).1.length = lo.length ∧
+      ∀ (i : Nat) (l h x : ℝ), lo[i]? = some l → hi[i]? = some h →
+        (@sampleReal ℝ ρ numReal raw lo hi g).1[i]? = some x → l ≤ x ∧ x ≤ h := by
+  intro lo
+  induction lo with
+  | nil =>
+    intro hi g _ _
+    refine ⟨by cases hi <;> simp [sampleReal], ?_⟩
+    intro i l h x hl; simp at hl
+  | cons l0 lo ih =>
+    intro hi g h1 hb
+    match hi, h1 with
+    | h0 :: hi, h1 =>
+      have ih' := ih hi (raw g).2 (by simpa using h1)
+        (fun i l h hl hh => hb (i + 1) l h (by simpa using hl) (by simpa using hh))
+      simp only [sampleReal]
+      refine ⟨by simp [ih'.1], ?_⟩
+      intro i l h x hl hh hx
+      cases i with
+      | zero =>
+        have e1 : l0 = l := by simpa using hl
+        have e2 : h0 = h := by simpa using hh
+        have e3 : uniformRealR l0 h0 (raw g).1 = x := by simpa using hx
+        subst e1 e2 e3
+        have b := uniformReal_bounds l0 h0 (raw g).1 (hb 0 l0 h0 (by simp) (by simp)) (hraw g).1 (hraw g).2
+        exact ⟨b.1, b.2.1⟩
+      | succ i =>
+        exact ih'.2 i l h x (by simpa using hl) (by simpa using hh) (by simpa using hx)
+
+open OmplModel.ControlReconf in
+/-- a draw of either sampler lies within the bounds it was handed -/
+theorem sampleCtl_inB {ρ : Type} (raw : ρ → ℝ × ρ) (hraw : ∀ g, 0 ≤ (raw g).1 ∧ (raw g).1 < 1)
+    (b : CBounds ℝ) (g : ρ) (hb : WFB (· ≤ ·) b) :
+    InB (· ≤ ·) b (@sampleCtl ℝ ρ numReal raw b g).1 := by
+  cases b with
+  | real lo hi =>
+    exact sampleReal_bounds raw hraw lo hi g hb.1 hb.2
+  | disc lo hi =>
+    exact uniformInt_bounds lo hi (raw g).1 hb (hraw g).1 (hraw g).2
+
+open OmplModel.ControlReconf in
+/-- `sampleStepCount(a, b) ∈ [a, b]` -/
+theorem sampleSteps_range {ρ : Type} (raw : ρ → ℝ × ρ) (hraw : ∀ g, 0 ≤ (raw g).1 ∧ (raw g).1 < 1)
+    (a b : Nat) (g : ρ) (h : a ≤ b) :
+    a ≤ (@sampleSteps ℝ ρ numReal raw a b g).1 ∧ (@sampleSteps ℝ ρ numReal raw a b g).1 ≤ b := by
+  have hb := uniformInt_bounds (Int.ofNat a) (Int.ofNat b) (raw g).1 (by exact_mod_cast h) (hraw g).1 (hraw g).2
+  show a ≤ (uniformIntR (Int.ofNat a) (Int.ofNat b) (raw g).1).toNat ∧ (uniformIntR (Int.ofNat a) (Int.ofNat b) (raw g).1).toNat ≤ b
+  have h1 : (a : Int) ≤ uniformIntR (Int.ofNat a) (Int.ofNat b) (raw g).1 := hb.1
+  have h2 : uniformIntR (Int.ofNat a) (Int.ofNat b) (raw g).1 ≤ (b : Int) := hb.2
+  omega
 
 end OmplModel.ControlReal
